@@ -36,6 +36,12 @@ def main(argv):
                     rep.violation("after-primitive/" + clause[4:], {"id": v["id"], "event": v["event"]}, detail={"failed": v["bad"]})
         stat["states"] += tr["states"]
         stat["generated"] += tr["generated"]
+        design = None
+        if not args.replay:
+            from . import designfam
+
+            design = designfam
+            designfam.attach(rep, PROP, args.tier, d, args.jobs)
     finally:
         tlc.cleanup(d)
     for v in stat["viol"]:
@@ -48,7 +54,7 @@ def main(argv):
     ok = [s for s in summ if s.get("build") == "ok"]
     nt = [s for s in ok if s["nbranching"] > 0]
     rep.coverage.update({
-        "states": out["states"] + stat["states"], "transitions": out["generated"] + stat["generated"],
+        "states": out["states"] + stat["states"] + rep.coverage.get("states", 0), "transitions": out["generated"] + stat["generated"] + rep.coverage.get("transitions", 0),
         "traces_validated_against_impl": len(ok), "evaluations": len(inputs),
         "distinct_nontrivial": len({json.dumps(s["id"], sort_keys=True) for s in nt}),
         "rule": "TablesAgree evaluated by TLC on every stage state; unset / out-of-range / stale-latch control variables searched by TLC over the "
